@@ -1826,6 +1826,10 @@ class Evaluator:
             if isinstance(a, Num) or isinstance(b, Num):
                 return Const(isinstance(op, ast.NotEq))
             return p if isinstance(op, ast.Eq) else p_not(p)
+        if isinstance(a, Term) and isinstance(b, Term) and a.head == 'bcast' and b.head == 'bcast' and a.args[1].v != b.args[1].v \
+                and isinstance(op, (ast.Lt, ast.LtE, ast.Gt, ast.GtE)):
+            # 2-D boolean table T[i, j] of a comparison between every element of one array and every element of the other
+            return Term('outer_cmp', (Const(type(op).__name__), a, b), kind='ndarray2d')
         na, nb = self.as_num(a), self.as_num(b)
         if na is None or nb is None:
             name = type(op).__name__
@@ -1949,6 +1953,19 @@ class Evaluator:
             if key is not None and base.rest is None:
                 raise _PyRaise('KeyError')
             return Term('item', (base, idx))
+        if self.elementwise and isinstance(idx, Tup) and len(idx.items) == 2:
+            # a[np.newaxis, :] / a[:, np.newaxis] of a 1-D array: a row / a column for broadcasting against the other
+            def is_new(v):
+                return (isinstance(v, Const) and v.v is None) or (isinstance(v, Fn) and str(v.ref) == 'numpy.newaxis')
+
+            def is_full(v):
+                return isinstance(v, Term) and v.head == 'slice' and all(isinstance(x_, Const) and x_.v is None for x_ in v.args)
+            nb0 = base if isinstance(base, Num) else (self.as_num(base, True) if isinstance(base, Term) and base.kind in ('ndarray', 'list') else None)
+            if nb0 is not None and nb0.length is not None and getattr(nb0, 'mask', None) is None:
+                if is_new(idx.items[0]) and is_full(idx.items[1]):
+                    return Term('bcast', (nb0, Const(1)), kind='ndarray2d')      # varies along axis 1
+                if is_full(idx.items[0]) and is_new(idx.items[1]):
+                    return Term('bcast', (nb0, Const(0)), kind='ndarray2d')      # varies along axis 0
         ct = arr_identity(base) if isinstance(base, Num) else base
         if isinstance(ct, Term) and ct.head == 'cat' and isinstance(idx, Num) and idx.length is None:
             hit = self._cat_tail_element(ct, idx.r)
@@ -2906,6 +2923,32 @@ def h_clip_ew(ev, pos, kw, st, node):
 
 
 @_ew
+def h_count_table_ew(ev, pos, kw, st, node):
+    """count_nonzero / sum of the comparison table of a sorted array X against queries Q along the X axis: per query, the number of elements of X
+    that are <= (or <) it - the same counts searchsorted gives"""
+    t = _arg(pos, kw, 0, 'a')
+    ax = kw.get('axis', pos[1] if len(pos) > 1 else None)
+    if not (isinstance(t, Term) and t.head == 'outer_cmp' and isinstance(ax, Num) and ax.is_const()) or (set(kw) - {'a', 'axis'}):
+        return None
+    opn, a, b = t.args[0].v, t.args[1], t.args[2]
+    axis = int(ax.const()) % 2
+    # the counted operand varies along `axis`; the other one is the query
+    if a.args[1].v == axis:
+        counted, query, op = a.args[0], b.args[0], opn                      # counted OP query
+    else:
+        counted, query, op = b.args[0], a.args[0], {'Lt': 'Gt', 'LtE': 'GtE', 'Gt': 'Lt', 'GtE': 'LtE'}[opn]
+    head = {'LtE': 'cle', 'Lt': 'clt'}.get(op)
+    if head is None:
+        return None
+    ats = list(counted.r.atoms())
+    if not (len(ats) == 1 and sym.ATOMS.head(ats[0]) == 'el' and counted.r == Rat.atom(ats[0]) and sym.ATOMS.args(ats[0])[1] == sym.idx()):
+        return None
+    out = Num(sym.A(head, sym.ATOMS.args(ats[0])[0], query.r), query.length, 'ndarray')
+    out.dt = ('int',)
+    return out
+
+
+@_ew
 def h_searchsorted_ew(ev, pos, kw, st, node):
     """searchsorted(X, v, side) on a sorted array X: the number of elements <= v (side='right') or < v (side='left'), element-wise in v"""
     X, v = _arg(pos, kw, 0, 'a'), _arg(pos, kw, 1, 'v')
@@ -2928,7 +2971,7 @@ def h_searchsorted_ew(ev, pos, kw, st, node):
 
 LIB_HANDLERS = {
     'numpy.clip': h_clip_ew, 'numpy.minimum': _ew_minmax('min'), 'numpy.maximum': _ew_minmax('max'),
-    'numpy.searchsorted': h_searchsorted_ew,
+    'numpy.searchsorted': h_searchsorted_ew, 'numpy.count_nonzero': h_count_table_ew,
     'numpy.linspace': h_linspace, 'numpy.ravel': h_ravel, 'numpy.full': h_full, 'numpy.pad': h_pad, 'numpy.ptp': h_ptp, 'numpy.fromiter': h_fromiter,
     'functools.partial': h_partial, 'importlib.import_module': h_import_module,
     **{'operator.' + n_: h_operator(n_) for n_ in ('add', 'sub', 'mul', 'truediv', 'pow', 'floordiv', 'mod', 'lt', 'le', 'gt', 'ge', 'eq', 'ne')},
